@@ -350,6 +350,21 @@ impl ProcfsHandle {
             oflags.insert(OpenFlags::O_DIRECTORY);
         }
 
+        // Like ProcfsHandle::open, refuse flags that would make the final open
+        // create a new inode. The no-follow lookups below are vetted by the
+        // procfs resolver, but the trailing magic-link is opened by us with
+        // whatever flags the caller asked for. O_TMPFILE contains multiple
+        // bits (including O_DIRECTORY) so it has to be checked separately and
+        // after the trailing-slash handling above.
+        if oflags.intersects(OpenFlags::O_CREAT | OpenFlags::O_EXCL)
+            || oflags.contains(OpenFlags::O_TMPFILE)
+        {
+            Err(ErrorImpl::InvalidArgument {
+                name: "flags".into(),
+                description: "open flags cannot contain O_CREAT, O_EXCL or O_TMPFILE".into(),
+            })?
+        }
+
         // If the target is not a symlink, use an O_NOFOLLOW open. This defends
         // against C users forgetting to set O_NOFOLLOW for files that aren't
         // magic-links and thus shouldn't be followed.
